@@ -58,17 +58,17 @@ async fn run_clock(mut clock: HLCTimestamp, reqs: flume::Receiver<Event>) {
         match event {
             Event::Get(tx) => {
                 let ts = match clock.send() {
-                    // Every counter value of the current instant has been handed out,
-                    // carry on with the next instant rather than giving up.
-                    Err(TimestampError::Overflow) => {
-                        next_instant(&clock, clock.node()).and_then(|next| {
-                            clock = next;
-                            clock.send().ok()
-                        })
-                    },
-                    other => other.ok(),
+                    Ok(ts) => Some(ts),
+                    // Every counter value of the current instant has been handed out, or
+                    // the wall clock has stepped back by more than the allowed drift:
+                    // carry on with the timestamp which follows the logical clock rather
+                    // than giving up, the wall clock catches up with it eventually.
+                    Err(_) => following(&clock).map(|next| {
+                        clock = next;
+                        next
+                    }),
                 }
-                .expect("Clock counter should not overflow");
+                .expect("Clock should not run past the maximum timestamp");
                 #[cfg(feature = "verif")]
                 crate::verif::record_clock_event((0, 0, clock.as_u64(), ts.as_u64()));
 
@@ -94,6 +94,20 @@ async fn run_clock(mut clock: HLCTimestamp, reqs: flume::Receiver<Event>) {
                 }
             },
         }
+    }
+}
+
+/// The timestamp which follows `ts` on the same node, if it is representable: the next
+/// counter value of its instant, or the first timestamp of the next instant once every
+/// counter value has been used.
+fn following(ts: &HLCTimestamp) -> Option<HLCTimestamp> {
+    match ts.counter().checked_add(1) {
+        Some(counter) => {
+            let time = ts.datacake_timestamp();
+            (time.as_secs() <= TIMESTAMP_MAX)
+                .then(|| HLCTimestamp::new(time, counter, ts.node()))
+        },
+        None => next_instant(ts, ts.node()),
     }
 }
 
